@@ -3,8 +3,9 @@
 and print the table used in DESIGN.md section 0.6; also writes selftest/seed_results.json"""
 import json, os, subprocess, shutil, tempfile, sys, re
 ROOT = os.path.dirname(os.path.dirname(os.path.abspath(__file__)))
-res = {}
 only = set(sys.argv[1:])
+RES = os.path.join(ROOT, 'selftest', 'seed_results.json')
+res = json.load(open(RES)) if (only and os.path.exists(RES)) else {}
 for name in sorted(os.listdir(os.path.join(ROOT, 'seeded'))):
     if only and name not in only: continue
     d = os.path.join(ROOT, 'seeded', name)
@@ -29,6 +30,6 @@ for name in sorted(os.listdir(os.path.join(ROOT, 'seeded'))):
         sys.stdout.flush()
     finally:
         shutil.rmtree(tmp, ignore_errors=True)
-json.dump(res, open(os.path.join(ROOT, 'selftest', 'seed_results.json'), 'w'), indent=1)
+json.dump(res, open(RES, 'w'), indent=1)
 k = sum(1 for v in res.values() if v['verdict'] == 'CAUGHT')
 print('seeded changes caught: %d/%d' % (k, len(res)))
